@@ -12,6 +12,7 @@ import math
 import random
 
 import torch
+from .core import sint
 
 from . import modem, tlc, tv
 
@@ -87,6 +88,8 @@ def decoder_consumers():
     ldpc = E.LDPCCodeEncoder(check_matrix=H)
     mk("BeliefPropagationDecoder/LDPC(3x6)", ldpc, D.BeliefPropagationDecoder(ldpc, bp_iters=5), "BeliefPropagationDecoder")
     mk("MinSumLDPCDecoder/LDPC(3x6)", ldpc, D.MinSumLDPCDecoder(ldpc, bp_iters=5), "MinSumLDPCDecoder")
+    mk("MinSumLDPCDecoder(normalized)/LDPC(3x6)", ldpc, D.MinSumLDPCDecoder(ldpc, bp_iters=5, normalized=True), "MinSumLDPCDecoder")
+    mk("MinSumLDPCDecoder(offset=0.5,scaling=0.75)/LDPC(3x6)", ldpc, D.MinSumLDPCDecoder(ldpc, bp_iters=5, offset=0.5, scaling_factor=0.75), "MinSumLDPCDecoder")
     spc = E.SingleParityCheckCodeEncoder(3)
     mk("WagnerSoftDecisionDecoder/SPC(3)", spc, D.WagnerSoftDecisionDecoder(spc), "WagnerSoftDecisionDecoder")
     import contextlib
@@ -207,7 +210,7 @@ def run(run):
     for a in range(-10, 11):
         tid += 1
         p = float(sig(torch.tensor([a * math.log(2.0)], dtype=torch.float64))[0])
-        evs.append({"ev": "Sigmoid", "tid": tid, "a": a, "p6": int(round(p * 1e6))})
+        evs.append({"ev": "Sigmoid", "tid": tid, "a": a, "p6": sint(p * 1e6)})
         meta.append((None, "LLRThresholder(SOFT)", None))
         run.case(("sigmoid", a), nontrivial=a != 0)
     run.log("%d producers, %d events" % (len(prods), len(evs)))
